@@ -285,10 +285,60 @@ def check_fs(ctx: Ctx, res: Result):
     res.traces_validated += len(coq_cases)
 
 
+def check_urls(ctx: Ctx, res: Result):
+    """the plugin as the library obtains it: url_to_storage_plugin(url) for snapshot roots with every character a directory
+    name may contain; the bytes must land under exactly the directory the caller named, and two different roots never
+    share a file"""
+    import shutil
+    from torchsnapshot.io_types import ReadIO, WriteIO
+    from torchsnapshot.storage_plugin import url_to_storage_plugin
+    rng = ctx.rng
+    base = os.path.realpath(ctx.scratch("urls"))
+    names = ["plain", "run#1", "run#2", "epoch?3", "epoch?4", "a b", "50%", "x;y", "q&r=1", "it's", "ü", "c:d", "@host", "p#", "#frag", "?q"]
+    try:
+        for i in range(ctx.n(24, 120)):
+            n1, n2 = rng.sample(names, 2)
+            form = rng.choice(["bare", "fs://", "://"])
+            roots = [os.path.join(base, f"s{i}", n) for n in (n1, n2)]
+            datas = [bytes(rng.randrange(256) for _ in range(rng.choice([1, 5, 33]))) for _ in roots]
+            loop = asyncio.new_event_loop()
+            try:
+                plugins = []
+                for root in roots:
+                    url = root if form == "bare" else form + root
+                    plugins.append(url_to_storage_plugin(url_path=url))
+                for pl, d in zip(plugins, datas):
+                    loop.run_until_complete(pl.write(WriteIO(path="0/x", buf=d)))
+                outs = []
+                for pl in plugins:
+                    rio = ReadIO(path="0/x")
+                    loop.run_until_complete(pl.read(rio))
+                    outs.append(rio.buf.getvalue())
+            except Exception as e:  # noqa
+                res.failures.append(Failure(f"C20:url-plugin-raised:{type(e).__name__}", f"url_to_storage_plugin round trip raised {type(e).__name__}: {str(e)[:160]} (roots {n1!r}, {n2!r}, form {form})",
+                                            {"kind": "url", "names": [n1, n2], "form": form}))
+                continue
+            finally:
+                loop.close()
+            res.case({"kind": "url", "names": [n1, n2], "form": form}, nontrivial=True)
+            res.count("url.form", form)
+            for root, d, o, n in zip(roots, datas, outs, (n1, n2)):
+                on_disk = os.path.join(root, "0", "x")
+                if o != d:
+                    res.failures.append(Failure("C20:url-root-read-wrong-bytes", f"root {n!r} ({form}): read back {list(o)[:8]} after writing {list(d)[:8]} (the other root was {n1 if n == n2 else n2!r})",
+                                                {"kind": "url", "names": [n1, n2], "form": form}))
+                elif not (os.path.isfile(on_disk) and open(on_disk, "rb").read() == d):
+                    res.failures.append(Failure("C20:url-root-bytes-not-under-the-named-directory", f"root {n!r} ({form}): the bytes written are not in {on_disk!r}",
+                                                {"kind": "url", "names": [n1, n2], "form": form}))
+    finally:
+        shutil.rmtree(base, ignore_errors=True)
+
+
 def correspond(ctx: Ctx) -> Result:
     res = Result(rule=RULE)
     check_stream(ctx, res)
     check_fs(ctx, res)
+    check_urls(ctx, res)
     return res
 
 
@@ -303,6 +353,10 @@ def replay(ctx: Ctx, data):
             return Failure("C20:stream-differs-from-BytesIO", f"{mv} vs {bio}", data)
         return None
     import shutil
+    if data["kind"] == "url":
+        r = Result()
+        check_urls(Ctx(ctx.prop, ctx.tier, ctx.seed), r)
+        return r.failures[0] if r.failures else None
     writes = [(a, bytes(b), c) for a, b, c in data["writes"]]
     over = [(a, bytes(b), c) for a, b, c in data.get("overwrite", [])]
     p, r = data["read"]
